@@ -411,8 +411,22 @@ class SymEval:
                     for x in ast.walk(v):
                         if isinstance(x, ast.Call) and isinstance(x.func, ast.Name) and x.func.id == 'EMITRESULT':
                             q.awaited.add(x.args[0].value)
-                    if isinstance(v, ast.Name) and v.id[:1] == 'C' and v.id[1:].isdigit():
-                        q.awaited_calls.add(int(v.id[1:]))
+                    # (let-normal form) awaiting a named call awaits what it wraps: gather(*EMITRESULT), convert_yielded(...)
+                    todo = [x.id for x in ast.walk(v) if isinstance(x, ast.Name) and x.id[:1] == 'C' and x.id[1:].isdigit()]
+                    seen_c = set()
+                    while todo:
+                        cid = todo.pop()
+                        k_ = int(cid[1:])
+                        if k_ in seen_c or k_ >= len(q.calls):
+                            continue
+                        seen_c.add(k_)
+                        if isinstance(v, ast.Name) and v.id == cid:
+                            q.awaited_calls.add(k_)
+                        for x in ast.walk(q.calls[k_][0]):
+                            if isinstance(x, ast.Call) and isinstance(x.func, ast.Name) and x.func.id == 'EMITRESULT':
+                                q.awaited.add(x.args[0].value)
+                            if isinstance(x, ast.Name) and x.id[:1] == 'C' and x.id[1:].isdigit():
+                                todo.append(x.id)
                 yield q, v
             return
         if isinstance(node, ast.IfExp):
